@@ -45,6 +45,8 @@ def scenarios(tier):
         [[["consume"]], [["consume"]], [["remaining"]]], b2)
     add("budget: cost 2 vs cost 1 with 2 left", "budget", {"max": 2, "win": 100}, [], 3, [[["consume", 2]], [["consume"]]], b3)
     add("budget: grant ageing out exactly now", "budget", {"max": 1, "win": 5}, [[0, ["consume"]]], 5, [[["consume"]], [["consume"], ["remaining"]]], b2)
+    add("budget: a reader prunes the expired grant while a consumer takes the slot twice", "budget", {"max": 1, "win": 5},
+        [[0, ["consume"]]], 5, [[["remaining"]], [["consume"], ["consume"]]], b3)
     return S
 
 
